@@ -3,7 +3,7 @@
              goal  interpM rho m1 = interpM rho m2   ==>  apply (mexpr_eq_sound cf); vm_compute; reflexivity. *)
 From Coq Require Import Reals QArith Qreals List ZArith Lra.
 From Coquelicot Require Import Coquelicot.
-Require Import QG.Sym.Expr QG.Sym.Coeff QG.Sym.Poly QG.Sym.Norm QG.Sym.Sound QG.Sym.Mat.
+Require Import QG.Sym.Expr QG.Sym.Coeff QG.Sym.Poly QG.Sym.Norm QG.Sym.Sound QG.Sym.Mat QG.Sym.Subst.
 Import ListNotations.
 
 Ltac sym_decide cf :=
@@ -89,6 +89,17 @@ Proof. intros t.
   sym_decide cf. Qed.
 Print Assumptions pythagoras_native.
 
+(* unsupported REAL subterms (here the decay factor e^{-a}) are abstracted by a fresh Plain variable (6); the
+   substitution theorem of Subst.v transfers the decided identity back to the original expressions *)
+Example abstracted : forall rho,
+  interpC rho (EAdd (EMul (EExp (ENeg a)) (EPow (ECos x) 2)) (EMul (EExp (ENeg a)) (EPow (ESin x) 2)))
+  = interpC rho (EExp (ENeg a)).
+Proof. intros rho.
+  apply (expr_eq_sound_subst cf [(6%nat, EExp (ENeg a))]
+           (EAdd (EMul (EVar 6) (EPow (ECos x) 2)) (EMul (EVar 6) (EPow (ESin x) 2))) (EVar 6));
+  vm_compute; reflexivity. Qed.
+Print Assumptions abstracted.
+
 (* ---------- matrices ---------- *)
 Definition I2 : mexpr := MLeaf [[E1; E0]; [E0; E1]].
 Definition I4 : mexpr := MLeaf [[E1; E0; E0; E0]; [E0; E1; E0; E0]; [E0; E0; E1; E0]; [E0; E0; E0; E1]].
@@ -138,6 +149,14 @@ Proof. sym_decide cf. Qed.
 Example madd_example : forall rho,    (* (U + U)/2 = U, with MAdd and MScale *)
   interpM rho (MScale (EQ (1 # 2)) (MAdd (U y x) (U y x))) = interpM rho (U y x).
 Proof. sym_decide cf. Qed.
+
+Example mabstracted : forall rho,   (* amplitude damping factor g = sqrt(1 - e^{-a}) abstracted: [[1,0],[0,g]]^2 = [[1,0],[0,g^2]] *)
+  let g := ESqrt (ESub E1 (EExp (ENeg a))) in
+  interpM rho (MMul (MLeaf [[E1; E0]; [E0; g]]) (MLeaf [[E1; E0]; [E0; g]])) = interpM rho (MLeaf [[E1; E0]; [E0; EPow g 2]]).
+Proof. intros rho g.
+  apply (mexpr_eq_sound_subst cf [(6%nat, g)]
+           (MMul (MLeaf [[E1; E0]; [E0; EVar 6]]) (MLeaf [[E1; E0]; [E0; EVar 6]])) (MLeaf [[E1; E0]; [E0; EPow (EVar 6) 2]]));
+  vm_compute; reflexivity. Qed.
 
 (* rejected: a wrong matrix identity, a dimension mismatch, a ragged leaf *)
 Example mfalse_rejected : mexpr_eqb cf (MMul (U y x) (U y x)) I2 = false.
